@@ -3,10 +3,14 @@ package props
 // Package-level option sets: model, apply, restore-all-defaults.
 
 import (
+	"bytes"
 	"strconv"
 	"strings"
 
 	mxj "github.com/clbanning/mxj/v2"
+	"github.com/clbanning/mxj/v2/j2x"
+	"github.com/clbanning/mxj/v2/x2j"
+	x2jw "github.com/clbanning/mxj/v2/x2j-wrapper"
 	"pgregory.net/rapid"
 )
 
@@ -45,7 +49,39 @@ func (o Opts) skip(key string) bool {
 }
 
 // Apply sets every option of o (all others are expected to be at their defaults).
+// Apply sets the options and then lets the bystanders run: what the library is asked to do between the moment an
+// option is set and the call under test must not matter.
 func (o Opts) Apply() {
+	o.apply()
+	bystanders()
+}
+
+// bystanders calls exported functions that are no option setters. None of them may change a package option or
+// anything else a later call depends on (a function that switches an option for its own use must put it back exactly).
+func bystanders() {
+	mxj.BeautifyXml([]byte(`<a x="1"><!--c--><b>1 &amp; 2</b><c/></a>`), "", " ")
+	mxj.NewMapFormattedXmlSeq([]byte("<a>\n <b>1</b>\n</a>"))
+	mxj.AnyXmlIndent([]interface{}{"x", map[string]interface{}{"k": "<"}}, "", " ")
+	byMap := mxj.Map{"n": map[string]interface{}{"l": []interface{}{map[string]interface{}{"k": "y", "-a": "1"}, "s"}, "t": "1.5"}}
+	byMap.Copy()
+	byMap.LeafNodes(true)
+	byMap.NewMap("n.t:m")
+	byMap.XmlWriter(&bytes.Buffer{})
+	byMap.JsonWriterRaw(&bytes.Buffer{})
+	byMap.Gob()
+	byMap.StringIndent()
+	mxj.NewMapXmlReaderRaw(strings.NewReader("<a>1</a><b>2</b>"))
+	mxj.NewMapJsonReader(strings.NewReader(`{"a":1} {"b":2}`))
+	mxj.HandleXmlReader(strings.NewReader("<a>1</a>"), func(mxj.Map) bool { return true }, func(error) bool { return true })
+	j2x.JsonToXml([]byte(`{"a":{"b":1.5}}`))
+	j2x.JsonUpdateValsForPath([]byte(`{"a":{"b":1,"c":2}}`), "b:3", "a.b", "c:2:num")
+	x2j.XmlToJson([]byte(`<a x="1">t</a>`))
+	x2j.XmlValuesForPath([]byte(`<a><b>1</b></a>`), "a.b")
+	x2jw.DocToMap(`<a x="1">t</a>`, true)
+	x2jw.DocToJson(`<a>1</a>`)
+}
+
+func (o Opts) apply() {
 	mxj.SetAttrPrefix(o.AttrPrefix)
 	mxj.SetGlobalKeyMapPrefix(o.KeyPrefix)
 	mxj.CoerceKeysToLower(o.Lower)
@@ -85,7 +121,7 @@ func (o Opts) Apply() {
 
 // resetOptions puts every package-level option back to its documented default.
 func resetOptions() {
-	defaultOpts().Apply()
+	defaultOpts().apply()
 	mxj.HandleXMPPStreamTag(false)
 	mxj.SetFieldSeparator()
 	mxj.SetArraySize(0)
@@ -220,6 +256,7 @@ func applyUnrelatedOptions(sel uint16) {
 	if bit(14) {
 		mxj.SetGlobalKeyMapPrefix("$")
 	}
+	defer bystanders()
 	if bit(15) {
 		mxj.SetCheckTagToSkipFunc(func(string) bool { return true })
 	}
